@@ -82,6 +82,11 @@ def basisOn (dmin dmax : ℚ) (nseg p : ℕ) (x : ℕ → ℚ) (k i : ℕ) : ℚ
 def predict1 (dmin dmax : ℚ) (nseg p : ℕ) (β : ℕ → ℚ) (x' : ℕ → ℚ) (i : ℕ) : ℚ :=
   fitted (nseg + p) (basisOn dmin dmax nseg p x') β i
 
+/-- Defaults of `PSplines(n_segments=10, degree=3, order_penalty=2, order_derivative=0)`. -/
+def defaultNSeg : ℕ := 10
+def defaultDegree : ℕ := 3
+def defaultOrder : ℕ := 2
+
 /-! ### n-D specification: Kronecker basis and tensor-product penalty (row-major) -/
 
 /-- `B₁ ⊗ B₂` (`B₂` of shape `m₂ × n₂`): row `k₁·m₂+k₂`, column `i₁·n₂+i₂`. -/
